@@ -568,8 +568,8 @@ func c04ExecParse(p *c04Parse, obs *c04Obs) {
 	}
 	if err != nil {
 		obs.Err = "error"
-		return
 	}
+	// also after an error: ParseInto changes dest in place before it fails
 	obs.Out = dest
 }
 
@@ -632,4 +632,19 @@ func c04CoqParse(p *c04Parse, res string) string {
 		jd = c04JDec(p.S)
 	}
 	return fmt.Sprintf("CParse %s %s %s %s %s %s", fn, hx.CoqStr(p.S), hx.CoqValMap(p.Dest), c04CoqStrMap(p.Files), jd, res)
+}
+
+// c04CoqParseRes: the destination afterwards, on success and on error.
+func c04CoqParseRes(o c04Obs) string {
+	if o.Panic != "" {
+		return "RErr"
+	}
+	out := "(VMap [])"
+	if o.Out != nil {
+		out = hx.CoqVal(o.Out)
+	}
+	if o.Err != "" {
+		return "(RErrD " + out + ")"
+	}
+	return "(ROk " + out + ")"
 }
